@@ -80,3 +80,38 @@ def callers_closure(facts, target_keys, extra_edges=None):
         seen.add(k)
         st.extend(rev.get(k, ()))
     return seen
+
+
+def err_to_ok(facts, scope=None):
+    """[(body, switch block, what)] — a Result of the crate's error type is tested and, on its Err edge,
+    the function produces an Ok value that is not the propagated residual: an error turned into a success."""
+    from .core import strip_refs, switch_edges_for_variant
+    err = crate_error_type(facts)
+    out = []
+    for b in facts.fns():
+        if scope is not None and b.key not in scope:
+            continue
+        for sb in b.reachable():
+            tt = b.blocks[sb]["term"]
+            if tt["k"] != "SwitchInt":
+                continue
+            e = b.trace(tt["discr"])
+            if e[0] != "discr" or e[2] != "std::result::Result":
+                continue
+            # type of the scrutinised place: find the Discriminant statement
+            ty = None
+            for st in b.blocks[sb]["stmts"]:
+                if st["k"] == "Assign" and st["rv"]["k"] == "Discriminant":
+                    ty = b.local_ty(st["rv"]["place"]["local"]) if not st["rv"]["place"]["proj"] else None
+            if ty is None or not ty.rstrip(">").endswith(err) and (", %s>" % err) not in ty:
+                continue
+            r_err = switch_edges_for_variant(b, sb, "Err")
+            r_ok = switch_edges_for_variant(b, sb, "Ok")
+            if not r_err or not r_ok:
+                continue
+            region = b.reachable(r_err[0]) - b.reachable(r_ok[0])
+            for bi in sorted(region | {r_err[0]}):
+                for si, st in enumerate(b.blocks[bi]["stmts"]):
+                    if st["k"] == "Assign" and st["place"]["local"] == 0 and not st["place"]["proj"] and st["rv"]["k"] == "Aggregate" and st["rv"].get("variant") == "Ok" and "Result" in (st["rv"].get("adt") or ""):
+                        out.append((b, bi, si, "on the Err edge of the test at bb%d the function returns Ok(..)" % sb))
+    return out
